@@ -11,17 +11,17 @@ import (
 // prof is one answer set of the Ilaenv/Iparmq seam. Zero/negative fields mean
 // "stock answer".
 type prof struct {
-	name       string
-	nb, nbmin  int // ispec 1, 2 for every routine name
-	nx         int // ispec 3 (-1: stock)
-	mnthr      int // ispec 6: 0 stock, 1 "lo" = min(m,n) (every shape takes the QR/LQ paths), 2 "hi" (never)
-	nmin       int // ispec 12 (0 stock); Dhseqr/Dlaqr04 clamp to >= 15, Dlaqr23 does not
-	nwr        int // ispec 13 deflation window
-	nibble     int // ispec 14 (-1 stock)
-	nsr        int // ispec 15 number of shifts
-	kacc       int // ispec 16 (-1 stock)
-	trevcNB    int // ispec 1 for DTREVC only (0: same as nb)
-	stock      bool
+	name      string
+	nb, nbmin int // ispec 1, 2 for every routine name
+	nx        int // ispec 3 (-1: stock)
+	mnthr     int // ispec 6: 0 stock, 1 "lo" = min(m,n) (every shape takes the QR/LQ paths), 2 "hi" (never)
+	nmin      int // ispec 12 (0 stock); Dhseqr/Dlaqr04 clamp to >= 15, Dlaqr23 does not
+	nwr       int // ispec 13 deflation window
+	nibble    int // ispec 14 (-1 stock)
+	nsr       int // ispec 15 number of shifts
+	kacc      int // ispec 16 (-1 stock)
+	trevcNB   int // ispec 1 for DTREVC only (0: same as nb)
+	stock     bool
 }
 
 var stockProf = prof{name: "stock", stock: true, nx: -1, nibble: -1, kacc: -1}
@@ -38,9 +38,11 @@ var profiles = []prof{
 
 // callLog is filled by the seam closures of the running case.
 type callLog struct {
-	names map[string]int // routine name -> number of Ilaenv calls (ispec 1..3, 6)
-	iparm map[int]int    // ispec 12..16 -> number of calls
-	mnthr int            // last answer given for ispec 6
+	names        map[string]int // routine name -> number of Ilaenv calls (ispec 1..3, 6)
+	iparm        map[int]int    // ispec 12..16 -> number of calls
+	mnthr        int            // last answer given for ispec 6
+	aed          int            // Dlaqr23 calls (ispec 12 with name DLAQR3)
+	aedRecursive int            // ... of which with a window larger than the answer (recursion into Dlaqr04)
 }
 
 func (c *callLog) String() string {
@@ -67,6 +69,16 @@ func (p prof) install() (*callLog, func()) {
 	vhook.IlaenvCalls = nil
 	iparm := func(ispec int, name, opts string, n, ilo, ihi, lwork int) (int, bool) {
 		log.iparm[ispec]++
+		if ispec == 12 && name == "DLAQR3" {
+			log.aed++
+			nmin := 75
+			if !p.stock && p.nmin > 0 {
+				nmin = p.nmin
+			}
+			if n > nmin {
+				log.aedRecursive++
+			}
+		}
 		if p.stock {
 			return 0, false
 		}
@@ -149,4 +161,20 @@ func profSet(thorough bool, nq int) []prof {
 		return profiles
 	}
 	return profiles[:nq]
+}
+
+// report adds the seam call counts of a case to the evidence counters: how
+// often Dlaqr04 really ran (ispec 14 is fetched once per run), how many
+// aggressive-early-deflation steps were made (ispec 12 asked by Dlaqr23 under
+// the name DLAQR3) and how many of them recursed into Dlaqr04.
+func (c *callLog) report(t interface{ Count(string, int64) }) {
+	if v := c.iparm[14]; v > 0 {
+		t.Count("dlaqr04_runs", int64(v))
+	}
+	if v := c.aed; v > 0 {
+		t.Count("aed_steps", int64(v))
+	}
+	if v := c.aedRecursive; v > 0 {
+		t.Count("aed_steps_via_dlaqr04", int64(v))
+	}
 }
